@@ -370,10 +370,69 @@ func c12IVWrap(word uint32) *vlib.Result {
 	return res
 }
 
+// c12Rekey: a second protected session on the SAME Stream (SetSymmetricKey called again,
+// with the same key - what re-applying a cached session does - or another one). The new
+// session must start with a fresh base IV; no (key, nonce) pair of the first may recur.
+func c12Rekey(sameKey bool) *vlib.Result {
+	ctx := context.Background()
+	res := &vlib.Result{Evals: 1, Nontrivial: 1}
+	b := &netsim.Buf{}
+	s := stream.NewStream(b)
+	k2 := testKey
+	if !sameKey {
+		k2 = append([]byte(nil), testKey...)
+		k2[0] ^= 0xff
+	}
+	type seen struct {
+		iv [16]byte
+		n  map[string]int
+	}
+	var sess []seen
+	for i, k := range [][]byte{testKey, k2, testKey} {
+		if err := s.SetSymmetricKey(k); err != nil {
+			res.Violate("C12/harness", "SetSymmetricKey #%d: %v", i, err)
+			return res
+		}
+		for j := 0; j < 3; j++ {
+			if err := s.SendMessage(ctx, []byte(fmt.Sprintf("session-%d-message-%d", i, j))); err != nil {
+				res.Violate("C12/rekey/send-error", "session %d message %d: %v", i, j, err)
+				return res
+			}
+		}
+		frames, _ := refcodec.ParseFrames(b.W)
+		b.W = nil
+		dir, _ := refcodec.NewDir(k, [32]byte{}, [32]byte{})
+		for fi, f := range frames {
+			if _, err := dir.Open(f); err != nil {
+				res.Violate("C12/rekey/ref-cannot-open", "session %d frame %d after re-keying: %v (a new session sends its base IV with its first frame)", i, fi, err)
+				return res
+			}
+		}
+		cur := seen{iv: dir.BaseIV, n: map[string]int{}}
+		for n, c := range dir.Nonces {
+			cur.n[string(k)+"/"+string(n[:])] = c
+		}
+		for pi, prev := range sess {
+			if prev.iv == cur.iv {
+				res.Violate("C12/rekey/base-iv-reused", "session %d on the same stream starts with the base IV of session %d", i, pi)
+			}
+			for kn := range cur.n {
+				if prev.n[kn] > 0 {
+					res.Violate("C12/nonce-reuse/rekey", "a (key, nonce) pair of session %d is used again in session %d of the same stream", pi, i)
+					return res
+				}
+			}
+		}
+		sess = append(sess, cur)
+	}
+	res.Outcome("rekey-ok")
+	return res
+}
+
 func C12Plan() *vlib.Plan {
 	p := &vlib.Plan{
 		Property: "C12", Level: "model_checking",
-		Rule:   "E-BFS over send histories: all sequences of length <= D over 11 operations (A/B sends 0/1/17/5000 bytes, A/B sends a secret, toggle crypto mode) x 7 cleartext-prefix shapes (none / A / B / both send a message; A / B / both send only zero-length frames), each replayed on two fresh real streams; state = (prefix shape, protected frames sent per direction, crypto mode). Every protected frame is opened by the independent reference decryptor (nonce = base IV word0 + counter, AAD = header / digests||header on the first frame), IVs compared across directions and all sessions of the run, reference-built frames fed to the real receiver; counter edge through imported state; a reference sender whose base IV leading word is 0 / 1 / 2^31-1 / 2^31 / 2^32-16 / 2^32-2 / 2^32-1 sends 24 frames to the real receiver (the nonce word wraps, the counter does not). Non-trivial = history emitted >= 1 protected frame.",
+		Rule:   "E-BFS over send histories: all sequences of length <= D over 11 operations (A/B sends 0/1/17/5000 bytes, A/B sends a secret, toggle crypto mode) x 7 cleartext-prefix shapes (none / A / B / both send a message; A / B / both send only zero-length frames), each replayed on two fresh real streams; state = (prefix shape, protected frames sent per direction, crypto mode). Every protected frame is opened by the independent reference decryptor (nonce = base IV word0 + counter, AAD = header / digests||header on the first frame), IVs compared across directions and all sessions of the run, reference-built frames fed to the real receiver; counter edge through imported state; a reference sender whose base IV leading word is 0 / 1 / 2^31-1 / 2^31 / 2^32-16 / 2^32-2 / 2^32-1 sends 24 frames to the real receiver (the nonce word wraps, the counter does not); three successive sessions on one Stream (re-keyed with the same key / another key): fresh base IV each time, no (key, nonce) pair twice. Non-trivial = history emitted >= 1 protected frame.",
 		Assume: []string{"reference decryptor written from the property text (refcodec), uses Go's AES-GCM primitive", "IV randomness is judged only by distinctness over all sessions of the run"},
 	}
 	p.Gen = func(tier string, yield func(vlib.Case)) {
@@ -405,6 +464,10 @@ func C12Plan() *vlib.Plan {
 				}
 			}
 			rec(nil)
+		}
+		for _, same := range []bool{true, false} {
+			same := same
+			yield(vlib.Case{ID: fmt.Sprintf("rekey/same-key=%v", same), Run: func() *vlib.Result { return c12Rekey(same) }})
 		}
 		for _, wd := range []uint32{0, 1, 0x7fffffff, 0x80000000, 0xfffffff0, 0xfffffffe, 0xffffffff} {
 			wd := wd
